@@ -117,7 +117,7 @@ fn finish_seed(u: &Universe, cfg: Config, mut prefix: Vec<Op>, removed: Vec<u32>
         Op::Mutate { k: lru, h: 2, b: true },
         Op::Mutate { k: 0, h: 1, b: false },
         Op::Mutate { k: mid2, h: (u.vheaps.len() - 1) as u8, b: true },
-        Op::Mutate { k: mid, h: 3, b: true },
+        Op::Mutate { k: mid, h: (u.vheaps.len() - 2) as u8, b: true },
         Op::Mutate { k: mru, h: 0, b: false },
         Op::GetLru,
         Op::RemoveLru,
